@@ -24,7 +24,7 @@ def models(tier, seed):
 
 def required_tags(tier):
     return ['shorts>=2', 'chain_or_star', 'short_at_ref', 'keep:nonempty', 'open', 'disjoint', 'not_disjoint', 'op:rm_open', 'op:rm_elem', 'op:switch',
-            'op:contract', 'op:rm_i', 'op:rm_v', 'op:passive']
+            'op:contract', 'op:rm_i', 'op:rm_v', 'op:passive', 'extreme_decades']
 
 
 def items(x):
@@ -59,6 +59,10 @@ def replay(case, ctx):
     variants = case.get('schemes') or [(0, 0, (0, 0)), ((h % (N_SCHEMES - 1)) + 1, (h >> 4) % 3, UNITS[(h >> 7) % len(UNITS)])]
     if 'schemes' not in case and ctx.get('tier') != 'thorough':
         variants = variants[:1] if h % 4 == 0 else variants[1:]
+    if 'schemes' not in case and (ctx.get('tier') == 'thorough' or h % 3 == 0):
+        # extreme decades (GOhm / nS, and mOhm): an element is an open circuit only when its admittance IS zero, a short only when its
+        # impedance IS zero - however small or large the values of the others are
+        variants = list(variants) + [((h >> 9) % N_SCHEMES, (h >> 6) % 3, [(9, 0), (-6, 0), (10, -3)][(h >> 12) % 3])]
     for scheme, mode, units in variants:
         one_variant(case, scheme, mode, tuple(units), r, tg, h)
     r.tags = sorted(tg)
@@ -71,6 +75,11 @@ def one_variant(case, scheme, mode, units, r, tg, h):
     zu, vu = 10.0 ** units[0], 10.0 ** units[1]
     ctxs = f'scheme={scheme} mode={mode} units={units}'
     mism = r.mismatches
+    # beyond 1e6 the MNA matrix mixes entries of 1 (voltage-source rows) with admittances of 1e-9: binary64 then resolves the solution to
+    # about 1e-7 of its scale only; structure is still compared exactly
+    RT = 1e-9 if abs(units[0]) <= 6 else 1e-5
+    if abs(units[0]) > 6:
+        tg.add('extreme_decades')
     built, e = call(build_network, br, ref, naming, mode, units)
     if e is not None:
         mism.append({'what': 'Network(...)', 'got': repr(e), 'want': 'accepted', 'signature': f'exc:construct:{exc_sig(e)}', 'detail': ctxs})
@@ -103,7 +112,7 @@ def one_variant(case, scheme, mode, units, r, tg, h):
                 continue
             r.observations += 1
             got, e = call(sol.get_potential, lab)
-            if e is not None or not close(got, phi[n], s_v):
+            if e is not None or not close(got, phi[n], s_v, rtol=RT, atol_rel=RT * 1e-3):
                 mism.append({'what': f'{what} get_potential({lab!r})', 'got': repr(e or got), 'want': repr(phi[n]), 'signature': f'value:{sig}:get_potential', 'detail': ctxs})
         for k, sid in enumerate(sids):
             bid = ids[sid]
@@ -112,7 +121,7 @@ def one_variant(case, scheme, mode, units, r, tg, h):
             for name, fn, want, sc in (('get_voltage', sol.get_voltage, gauss(xs['u'][k]) * vu, s_v), ('get_current', sol.get_current, gauss(xs['i'][k]) * vu / zu, s_i)):
                 r.observations += 1
                 got, e = call(fn, bid)
-                if e is not None or not close(got, want, sc):
+                if e is not None or not close(got, want, sc, rtol=RT, atol_rel=RT * 1e-3):
                     mism.append({'what': f'{what} {name}({bid!r})', 'got': repr(e or got), 'want': repr(want), 'signature': f'value:{sig}:{name}', 'detail': ctxs})
 
     def exact_structure(res_net, spec_net, want_ref, what, sig, altered=()):
